@@ -40,8 +40,8 @@ def subst(e, env, depth=0):
             if isinstance(n.ctx, ast.Load) and n.id in env:
                 return subst(env[n.id], env, depth + 1)
             return n
-    import copy
-    return Sub().visit(copy.deepcopy(e))
+    # a fresh copy without the _parent links (deepcopy would follow them and copy the whole module)
+    return Sub().visit(ast.parse(ast.unparse(e), mode='eval').body)
 
 
 def rise_guard(test, newv, strict):
@@ -116,6 +116,8 @@ def run(ctx, repo):
                    'places copied on equal keys else index+1; place hides athletes without a clearance')
     ctx.rule('R3', '_old_pos is never read outside the sort key')
     ctx.rule('R5', 'every store to highest_cleared_index outside __init__ is guarded by a strict rise of the best (or no clearance yet)')
+    ctx.rule('R6', 'from_matrix recognises every plain decimal as a height column (numeric conversion, or automata inclusion for a pattern)')
+    ctx.rule('R7', 'observers (to_matrix, place, ranking_key, has_retired, print_ranking) change no state, aliases included')
     ctx.rule('R4', 'in the tie-for-first branch of _rank the state becomes jumpoff or drawn, never finished/won')
 
     # ---- R1
@@ -387,6 +389,45 @@ def run(ctx, repo):
                         'with a tie for first standing, _rank can set the state to %s: a competition must not end (finished / won) while two '
                         'athletes share first place; the tie is broken by a jump-off or declared drawn' % sorted(vals - {'jumpoff', 'drawn'}),
                         'all but one of the tied athletes went out by retiring')
+    # ---- R6 the card import recognises every height column: _looks_like_height accepts every plain decimal ('2', '2.0', '2.00', '1.955')
+    llh = Cm.get('_looks_like_height')
+    if llh is not None:
+        uses_float = any(isinstance(c, ast.Call) and call_name(c) in ('float', 'Decimal') for c in ast.walk(llh))
+        pats_ = []
+        for n in ast.walk(mod.tree):
+            if isinstance(n, ast.Assign) and isinstance(n.value, ast.Call) and call_name(n.value) == 'compile' and n.value.args \
+                    and isinstance(n.value.args[0], ast.Constant) and isinstance(n.value.args[0].value, str):
+                nm = ast.unparse(n.targets[0]).split('.')[-1]
+                if any(isinstance(x, (ast.Name, ast.Attribute)) and ast.unparse(x).split('.')[-1] == nm for x in ast.walk(llh)):
+                    pats_.append((nm, n.value.args[0].value, n.lineno))
+        if uses_float and not pats_:
+            ctx.ok('R6', '_looks_like_height converts with float()/Decimal(): every decimal height text is a height column')
+        elif pats_:
+            from .. import rx
+            from ..pats import Pats
+            import re._parser as _sp
+            P_ = Pats(repo, extra_patterns=[('@HJ_' + nm, p_) for nm, p_, _l in pats_])
+            plain = P_.exact(list(_sp.parse(r'[0-9]+(?:\.[0-9]+)?')))
+            for nm, p_, ln in pats_:
+                lost = rx.diff(plain, P_.dfa('@HJ_' + nm))
+                w = P_.wit(lost)
+                if w is None:
+                    ctx.ok('R6', '_looks_like_height: pattern %s accepts every plain decimal' % nm)
+                else:
+                    ctx.finding('R6', '%s::HighJumpCompetition._looks_like_height::height headers rejected' % HJ, HJ, ln,
+                                'the pattern %r that recognises height columns rejects the height text %r: from_matrix silently drops that column, so '
+                                'every best, countback and place is computed without that bar' % (p_, w), w)
+        else:
+            ctx.info('_looks_like_height: neither a numeric conversion nor a compiled pattern; R6 not decided')
+    # ---- R7 observers change nothing (alias-aware purity, shared with C08): a card padded by an export changes has_retired and the ranking
+    from ..purity import impure_methods
+    imp_ = impure_methods(mod)
+    for q_ in ('HighJumpCompetition.to_matrix', 'HighJumpCompetition.print_ranking', 'Jumper.place', 'Jumper.ranking_key', 'Jumper.has_retired'):
+        if q_ in imp_ and q_ in mod.functions:
+            ln_, why_ = imp_[q_][0]
+            ctx.finding('R7', '%s::%s::observer changes the cards' % (HJ, q_), HJ, ln_,
+                        '%s only reports, but %s: the card is what has_retired, the countback and the tie test read, so looking at a competition '
+                        'changes its standings' % (q_, why_), 'to_matrix() during a jump-off with a retired athlete tied for first')
     # ---- R3 _old_pos unobservable
     n_uses = 0
     for n in ast.walk(mod.tree):
